@@ -149,7 +149,22 @@ func TestGzvBoundedCacheCluster(t *testing.T) {
 			servers = append(servers, s)
 			conf = append(conf, NodeConf{RedisConf: redis.RedisConf{Host: s.Addr(), Type: redis.NodeType}, Weight: 100})
 		}
-		c := New(conf, syncx.NewSingleFlight(), NewStat("gzvc"), errNotFound)
+		barrier := syncx.NewSingleFlight()
+		c := New(conf, barrier, NewStat("gzvc"), errNotFound)
+		// every node of the cluster guards its loads with the caller's barrier (so that caches built over one barrier - as
+		// sqlc and monc do for all their connections - suppress each other's concurrent loads of a key)
+		if cc, ok := c.(cacheCluster); ok {
+			for i := 0; i < 200; i++ {
+				n, found := cc.dispatcher.Get(fmt.Sprintf("user:%d", i))
+				if !found {
+					continue
+				}
+				if cn, isNode := n.(cacheNode); isNode && cn.barrier != barrier {
+					t.Errorf("GZV-REPRODUCED cache cluster of %d nodes built with barrier B: the node serving key user:%d guards its loads with another barrier (two caches sharing B would both query the database for one key at the same time)", nodes, i)
+					return
+				}
+			}
+		}
 		rnd := rand.New(rand.NewSource(int64(nodes)))
 		for round := 0; round < 60; round++ {
 			n := 1 + rnd.Intn(6)
